@@ -28,6 +28,18 @@ pub open spec fn opt_sview(s: Option<String>) -> Option<Seq<char>> {
     }
 }
 
+/// the environment in which the directives of the source `f` are executed: its line ending (C12), its directory
+/// (C17), its display path (TXTPP_FILE)
+pub open spec fn file_env(f: AbsPath, sh: Shell, mode: Mode) -> EnvV {
+    EnvV {
+        mode,
+        le: file_le(f.pv()),
+        work_dir: canon(path_parent(f.pv())->Some_0),
+        input_path: display_v(f),
+        shell: sh,
+    }
+}
+
 impl<'a> Pp<'a> {
     pub closed spec fn env_v(&self) -> EnvV {
         EnvV { mode: self.mode, le: self.context.le_v(), work_dir: self.context.work_dir_v(), input_path: self.context.meta().1@, shell: *self.shell }
